@@ -569,6 +569,10 @@ def step (line : String) : String :=
         let (d', ret) := specTreeStep b acc.1 op
         (d', s!"{ret}|{docStr d'}" :: acc.2)) (d, [])
       pure ("steps=" ++ ";".intercalate outs.reverse ++ " spec_steps=" ++ ";".intercalate souts.reverse)
+    | ["deep", b, n] =>
+      -- harness-only law (`law_deep`: the crate's walks on an N-token pointer use constant stack); the model has nothing
+      -- to add beyond accepting the line: its walks are structural recursions, total for every N
+      if (b == "json" || b == "toml") && n.toNat?.isSome then some "deep=modelled" else none
     | ["cmp", p, q] => do
       let p ← parseX p
       let q ← parseX q
